@@ -18,6 +18,7 @@ from ..dataflow import Flow, chain, call_name
 from ..absint import Interp
 from ..poly import Poly, le, lt, eq, entails
 from ..util import calls_in, qual, returns_of, has_fact
+from ..terms import Terms, reify, plain, is_none, mk_cmp, show, match, V, ANY
 
 MOD = "rig.machine_control.packets"
 
@@ -71,16 +72,23 @@ def _pack_call(fn, fname="pack"):
     return cs
 
 
+def _name_of(e):
+    t = unparse(e)
+    return t[5:] if t.startswith("self.") else t
+
+
 def r1_encoder(program, folder, rep):
     fn = program.get(MOD + ":SDPPacket.bytestring")
     inst = qual(fn)
     mod = fn._module
     const_of = _folder_const(folder, mod)
+    T = Terms(fn)
     packs = _pack_call(fn)
     if len(packs) != 1:
         raise AnalysisError("SDPPacket.bytestring: expected one struct.pack")
     call = packs[0]
-    fmt = const_of_str(folder, call.args[0], mod)
+    node = T.cfg.node_containing(call)
+    fmt = const_of_str(folder, reify(T.term(call.args[0], node)), mod)
     endian, slots, size = parse_format(fmt)
     args = call.args[1:]
     if len(slots) != len(args):
@@ -88,6 +96,7 @@ def r1_encoder(program, folder, rep):
                 "but %d values" % (fmt, len(slots), len(args)), call)
         return None
     enc = {}    # field -> (byte offset, field lo, n, byte lo)
+    SELF = ("param", "self")
     for (off, sz, code), a in zip(slots, args):
         want = SDP_LAYOUT.get(off)
         if sz != 1 or want is None:
@@ -96,24 +105,23 @@ def r1_encoder(program, folder, rep):
                     "in the documented SDP header" % (sz, off), a)
             continue
         if "flags" in want:
-            ok = (isinstance(a, ast.IfExp) and
-                  unparse(a.test) == "self.reply_expected" and
-                  const_of(a.body) == FLAGS[True] and
-                  const_of(a.orelse) == FLAGS[False])
+            ok = True
+            for val in (True, False):
+                H = T.under((("attr", SELF, "reply_expected"), val))
+                v = const_of(reify(H.term(a, node)))
+                ok = ok and v == FLAGS[val]
             rep.check(ok, "C15-R1", inst,
                       "byte %d = flags: 0x87 if a reply is expected else "
-                      "0x07" % off, construct="flags byte %s" % unparse(a),
-                      node=a)
+                      "0x07" % off, construct="flags byte", node=a)
             enc["flags"] = (off, 0, 8, 0)
             continue
-        lay = provenance(a, const_of)
+        lay = provenance(reify(T.term(a, node)), const_of, _name_of)
         got = {}
         for p in lay.pieces:
-            name = p.src[5:] if p.src.startswith("self.") else p.src
             n = p.n
             if n is None:
                 n = 8 - p.dst_lo      # the byte clips it
-            got[name] = (p.src_lo, n, p.dst_lo)
+            got[p.src] = (p.src_lo, n, p.dst_lo)
         ov = lay.overlaps()
         ok = (got == want and not ov and lay.const == 0)
         rep.check(ok, "C15-R1", inst,
@@ -129,10 +137,9 @@ def r1_encoder(program, folder, rep):
               inst, "the header is 2 pad bytes + 8 single-byte fields (10 "
               "bytes)", construct="header format %r" % fmt, node=call)
     # header is followed by packed_data
-    parent = call._parent
-    ok = isinstance(parent, ast.BinOp) and isinstance(parent.op, ast.Add) \
-        and parent.left is call and unparse(parent.right) == \
-        "self.packed_data"
+    rets = [T.term(r.value) for r in returns_of(fn) if r.value is not None]
+    ok = len(rets) == 1 and rets[0] == (
+        "binop", "Add", T.term(call, node), ("attr", SELF, "packed_data"))
     rep.check(ok, "C15-R1", inst, "the header is followed by packed_data",
               construct="header + packed_data", node=call)
     rep.floor("C15-R1", 9)
@@ -160,6 +167,7 @@ def r2_decoder(program, folder, rep, fmt, enc):
     inst = qual(fn)
     mod = fn._module
     const_of = _folder_const(folder, mod)
+    T = Terms(fn)
     pkt, raw = [a.arg for a in fn.args.args][:2]
     ups = [c for c in calls_in(fn, "unpack_from")
            if chain(call_name(c)[1]) == "struct"]
@@ -167,66 +175,57 @@ def r2_decoder(program, folder, rep, fmt, enc):
         raise AnalysisError("_unpack_sdp_into_packet: expected one "
                             "struct.unpack_from")
     call = ups[0]
-    dfmt = const_of_str(folder, call.args[0], mod)
+    cn = T.cfg.node_containing(call)
+    dfmt = const_of_str(folder, reify(T.term(call.args[0], cn)), mod)
     rep.check(dfmt == fmt, "C15-R2", inst,
               "decoder uses the encoder's header format %r" % fmt,
               construct="decoder format %r" % dfmt, node=call)
-    rep.check(len(call.args) >= 2 and chain(call.args[1]) == raw and
+    rep.check(len(call.args) >= 2 and
+              T.term(call.args[1], cn) == ("param", raw) and
               (len(call.args) == 2 or const_of(call.args[2]) == 0),
               "C15-R2", inst, "the header is decoded from offset 0 of the "
               "datagram", construct="decode offset", node=call)
     endian, slots, size = parse_format(dfmt)
-    asg = call._parent
-    if not (isinstance(asg, ast.Assign) and
-            isinstance(asg.targets[0], ast.Tuple)):
-        raise AnalysisError("decoder no longer unpacks into a tuple")
-    targets = asg.targets[0].elts
-    if len(targets) != len(slots):
-        rep.bad("C15-R2", inst, "unpack arity", "unpack_from(%r) yields %d "
-                "values but %d targets" % (dfmt, len(slots), len(targets)),
-                asg)
-        return
-    slot_of = {}     # local/field name -> byte offset
-    for (off, sz, code), t in zip(slots, targets):
-        slot_of[chain(t)] = off
-    # decoded fields: packet.<f> = <expr over slot locals>
+    U = T.term(call, cn)
+    # the value of slot i is ("comp", U, i)
+    slot_name = {}
+    for i, (off, sz, code) in enumerate(slots):
+        slot_name[unparse(reify(("comp", U, i)))] = off
     dec = {}
-    fl = Flow(fn)
-    for d in fl.defs:
-        if not d.var.startswith(pkt + "."):
+    n_fields = 0
+    for b_ in T.binds:
+        if not b_.var.startswith(pkt + ".") or b_.mode not in (
+                "assign",) or b_.value is None:
             continue
-        field = d.var[len(pkt) + 1:]
+        field = b_.var[len(pkt) + 1:]
         if field == "data":
             continue
-        if d.mode == "unpack":
-            off = slot_of.get(d.var)
-            dec[field] = (off, 0, 8, 0)
-            continue
-        if d.mode != "assign" or d.value is None:
-            continue
+        n_fields += 1
+        t = T._bind_term(b_)
         if field == "reply_expected":
-            v = d.value
-            ok = (isinstance(v, ast.Compare) and len(v.ops) == 1 and
-                  isinstance(v.ops[0], ast.Eq) and
-                  slot_of.get(chain(v.left)) == 2 and
-                  const_of(v.comparators[0]) == FLAGS[True])
+            ok = False
+            if t[0] == "cmp" and t[1] == "Eq":
+                for x, y in ((t[2], t[3]), (t[3], t[2])):
+                    if x == ("comp", U, 0) and slots[0][0] == 2 and \
+                            const_of(reify(y)) == FLAGS[True]:
+                        ok = True
             rep.check(ok, "C15-R2", inst, "reply_expected is decoded as "
-                      "(flags byte == 0x87)", construct="flags decode %s" %
-                      unparse(v), node=v)
+                      "(flags byte == 0x87)", construct="flags decode",
+                      node=b_.node.ast)
             dec["flags"] = (2, 0, 8, 0)
             continue
-        lay = provenance(d.value, const_of)
+        lay = provenance(reify(t), const_of)
         if len(lay.pieces) != 1 or lay.const:
             rep.bad("C15-R2", inst, "decode of %s" % field,
                     "%s is decoded by %s which is not a single bit-field "
-                    "extraction" % (field, unparse(d.value)), d.value)
+                    "extraction" % (field, show(t)), b_.node.ast)
             continue
         p = lay.pieces[0]
-        off = slot_of.get(p.src)
+        off = slot_name.get(p.src)
         if off is None:
             rep.bad("C15-R2", inst, "decode of %s" % field,
                     "%s is decoded from %s which is not a header slot" % (
-                        field, p.src), d.value)
+                        field, p.src), b_.node.ast)
             continue
         n = p.n if p.n is not None else 8 - p.src_lo
         # decoder: field bits [dst_lo, +n) come from byte bits [src_lo, +n)
@@ -240,16 +239,16 @@ def r2_decoder(program, folder, rep, fmt, enc):
                   fail="field %s is encoded at (byte, field-lo, bits, "
                        "byte-lo)=%s but decoded from %s" % (field, e, d))
     # payload offset
-    for d in fl.defs:
-        if d.var == pkt + ".data" and d.mode == "assign":
-            v = d.value
-            ok = (isinstance(v, ast.Subscript) and chain(v.value) == raw and
-                  isinstance(v.slice, ast.Slice) and v.slice.upper is None
-                  and v.slice.lower is not None and
-                  const_of(v.slice.lower) == size)
+    for b_ in T.binds:
+        if b_.var == pkt + ".data" and b_.mode == "assign":
+            t = T._bind_term(b_)
+            ok = t[0] == "item" and t[1] == ("param", raw) and \
+                t[2][0] == "slice" and t[2][2] == ("const", None) and \
+                t[2][3] == ("const", None) and \
+                const_of(reify(t[2][1])) == size
             rep.check(ok, "C15-R2", inst, "payload = datagram[%d:] (size of "
                       "the header format)" % size,
-                      construct="payload slice %s" % unparse(v), node=v)
+                      construct="payload slice %s" % show(t), node=b_.node.ast)
     rep.floor("C15-R2", 12)
 
 
@@ -259,59 +258,66 @@ def r3_scp(program, folder, rep):
     inst = qual(fn)
     mod = fn._module
     const_of = _folder_const(folder, mod)
-    fl = Flow(fn)
-    packs = _pack_call(fn)
-    seq = []
-    for c in packs:
-        fmt = const_of_str(folder, c.args[0], mod)
-        node = fl.cfg.node_containing(c)
-        seq.append((node, fmt, [unparse(a) for a in c.args[1:]], c))
-    # the first pack: '<2H' cmd_rc, seq, unconditional
-    want = [("<2H", ["self.cmd_rc", "self.seq"], None),
-            ("<I", ["self.arg1"], "self.arg1 is not None"),
-            ("<I", ["self.arg2"], "self.arg2 is not None"),
-            ("<I", ["self.arg3"], "self.arg3 is not None")]
-    ok_n = len(seq) == 4
-    rep.check(ok_n, "C15-R3", inst, "the SCP header is built from four "
-              "struct.pack calls (cmd_rc/seq and three arguments)",
-              construct="scp pack count %d" % len(seq), node=fn)
-    if ok_n:
-        for i, ((node, fmt, args, c), (wf, wa, guard)) in enumerate(
-                zip(seq, want)):
-            facts = fl.facts(node)
-            g_ok = True if guard is None else has_fact(facts, guard, True)
-            order_ok = all(fl.cfg.reaches(seq[j][0], node) and
-                           not fl.cfg.reaches(node, seq[j][0])
-                           for j in range(i))
-            rep.check(fmt.replace(" ", "") == wf and args == wa and g_ok and
-                      order_ok, "C15-R3", inst,
-                      "part %d of the SCP header is pack(%r, %s)%s, after "
-                      "the previous parts" % (i, wf, ", ".join(wa),
-                                              " iff " + guard if guard
-                                              else ""),
-                      construct="scp part %d %r %s" % (i, fmt, args), node=c)
-        # accumulation: header parts are appended (+=) and data comes last
-        rets = returns_of(fn)
-        ok = len(rets) == 1 and isinstance(rets[0].value, ast.BinOp) and \
-            isinstance(rets[0].value.op, ast.Add) and \
-            unparse(rets[0].value.right) == "self.data"
-        hdr = chain(rets[0].value.left) if ok else None
-        appended = True
-        for node, fmt, args, c in seq:
-            st = c._parent
-            if isinstance(st, ast.Assign):
-                appended &= chain(st.targets[0]) == hdr
-            elif isinstance(st, ast.AugAssign):
-                appended &= chain(st.target) == hdr and \
-                    isinstance(st.op, ast.Add)
-            else:
-                appended = False
-        rep.check(ok and appended, "C15-R3", inst,
-                  "packed_data = header parts in order + self.data",
-                  construct="scp packed_data concatenation", node=fn)
-    # --- decoder -----------------------------------------------------------
+    if any(isinstance(n, (ast.For, ast.While)) for n in ast.walk(fn)):
+        raise AnalysisError("SCPPacket.packed_data builds the header in a "
+                            "loop: the part-by-part rule only reads "
+                            "straight-line code")
+    T = Terms(fn)
+    SELF = ("param", "self")
+    rets = [r for r in returns_of(fn) if r.value is not None]
+    if len(rets) != 1:
+        raise AnalysisError("SCPPacket.packed_data: one return expected")
+    rn = T.cfg.node_of(rets[0])
+
+    def flat(t):
+        if t[0] == "binop" and t[1] == "Add":
+            return flat(t[2]) + flat(t[3])
+        return [t]
+
+    def packed(t):
+        """(format, [value terms]) of a struct.pack(...) term."""
+        t = plain(t)
+        if t[0] == "call" and t[1] == ("attr", ("global", "struct"),
+                                       "pack") and t[2]:
+            f = const_of_str(folder, reify(t[2][0]), mod)
+            return f.replace(" ", ""), list(t[2][1:])
+        return None
+    import itertools
+    n_case = 0
+    for present in itertools.product((True, False), repeat=3):
+        hyps = [(is_none(("attr", SELF, "arg%d" % (k + 1))), not pr)
+                for k, pr in enumerate(present)]
+        H = T.under(*hyps)
+        parts = flat(H.term(rets[0].value, rn))
+        want = [("<2H", [("attr", SELF, "cmd_rc"), ("attr", SELF, "seq")])]
+        for k, pr in enumerate(present):
+            if pr:
+                want.append(("<I", [("attr", SELF, "arg%d" % (k + 1))]))
+        got = [packed(x) for x in parts[:-1]]
+        ok = got == want and parts[-1] == ("attr", SELF, "data")
+        n_case += 1
+        names = [("arg%d" % (k + 1)) for k, pr in enumerate(present) if pr]
+        rep.check(ok, "C15-R3", inst, "with arguments %s present the packed "
+                  "data is pack('<2H', cmd_rc, seq) + %s + data" % (
+                      names or "none", " + ".join(
+                          "pack('<I', %s)" % n for n in names) or "nothing"),
+                  construct="scp encoding, present %s" % (names,), node=fn,
+                  fail="with arguments %s present the SCP body is not "
+                       "cmd_rc, seq, those arguments in order, then the "
+                       "data: got %s" % (names, [show(x)[:60]
+                                                 for x in parts]))
+    rep.floor("C15-R3", 8)
+
+
+def r3_scp_decoder(program, folder, rep):
     fn = program.get(MOD + ":SCPPacket.from_bytestring")
     inst = qual(fn)
+    mod = fn._module
+    const_of = _folder_const(folder, mod)
+    if any(isinstance(n, (ast.For, ast.While)) for n in ast.walk(fn)):
+        raise AnalysisError("SCPPacket.from_bytestring reads the arguments "
+                            "in a loop: the argument-by-argument rule only "
+                            "reads straight-line code")
     ps = [a.arg for a in fn.args.args]
     if len(ps) != 3:
         raise AnalysisError("SCPPacket.from_bytestring signature changed")
@@ -451,6 +457,68 @@ def r3_scp(program, folder, rep):
     rep.floor("C15-R3", 14)
 
 
+def r3_scp_payload(program, folder, rep):
+    """Whatever way the arguments are read: the payload handed on is
+    body[off:] with 0 <= off <= len(body) (no byte of the body is dropped
+    because the offset overshoots)."""
+    fn = program.get(MOD + ":SCPPacket.from_bytestring")
+    inst = qual(fn)
+    it0 = Interp(fn)
+    fl0 = it0.flow
+    found = 0
+    for d in fl0.defs:
+        if not (d.var.endswith(".data") and d.mode == "assign" and
+                isinstance(d.value, ast.Subscript) and
+                isinstance(d.value.slice, ast.Slice) and
+                isinstance(d.value.value, ast.Name) and
+                d.value.slice.upper is None and
+                d.value.slice.lower is not None):
+            continue
+        body = d.value.value.id
+        lower = d.value.slice.lower
+        L0 = fl0._composite("len(%s)" % body, [Poly.atom(body)],
+                            ("len", Poly.atom(body)))
+        o0 = it0.sym(lower, d.node)
+        it = Interp(fn, candidates=[le(o0, L0), le(0, o0)])
+        node = it.cfg.node_of(d.node.ast)
+        L = it.flow._composite("len(%s)" % body, [Poly.atom(body)],
+                               ("len", Poly.atom(body)))
+        off = it.sym(lower, node)
+        ok = it.holds_at(node, [le(0, off), le(off, L)])
+        found += 1
+        if not ok:
+            names = [n.id for n in ast.walk(lower)
+                     if isinstance(n, ast.Name)]
+            loops = [lp for lp in ast.walk(fn)
+                     if isinstance(lp, (ast.For, ast.While))]
+            in_loop = any(x.var in names and x.node.ast is not None and
+                          any(_within(x.node.ast, lp) for lp in loops)
+                          for x in it.flow.defs)
+            if in_loop:
+                raise AnalysisError("the payload offset is accumulated in a "
+                                    "loop whose invariant this rule cannot "
+                                    "infer")
+        rep.check(ok, "C15-R3", inst, "the payload is the body from an "
+                  "offset within the body (0 <= offset <= len)",
+                  construct="payload offset within body", node=d.value,
+                  fail="the payload is body[%s:] but %s is not provably "
+                       "within [0, len(body)]: when fewer argument words "
+                       "are present than asked for, payload bytes are "
+                       "dropped; state: %s" % (unparse(lower), unparse(
+                           lower), it.describe(node)))
+    if not found:
+        raise AnalysisError("SCP decoder: payload slice not found")
+
+
+def _within(node, anc):
+    p = node
+    while p is not None:
+        if p is anc:
+            return True
+        p = getattr(p, "_parent", None)
+    return False
+
+
 def r4_constants(program, folder, rep):
     hl = folder.name("rig.machine_control.consts", "SDP_HEADER_LENGTH")
     import struct
@@ -472,6 +540,8 @@ def check(program, rep):
     if res:
         rep.guard("C15-R2", r2_decoder, program, folder, rep, *res)
     rep.guard("C15-R3", r3_scp, program, folder, rep)
+    rep.guard("C15-R3", r3_scp_decoder, program, folder, rep)
+    rep.guard("C15-R3", r3_scp_payload, program, folder, rep)
     rep.guard("C15-R4", r4_constants, program, folder, rep)
     return finish(rep, program, EXPLANATION, NOT_DECIDED,
                   trusted=["the documented SDP header table SDP_LAYOUT in "
